@@ -99,7 +99,7 @@ func (Implementation) Dlarfb(side blas.Side, trans blas.Transpose, direct lapack
 		panic(badLdWork)
 	}
 
-	if m == 0 || n == 0 || k == 0 {
+	if m == 0 || n == 0 {
 		return
 	}
 
@@ -118,6 +118,11 @@ func (Implementation) Dlarfb(side blas.Side, trans blas.Transpose, direct lapack
 		panic(shortC)
 	case len(work) < (nw-1)*ldwork+k:
 		panic(shortWork)
+	}
+
+	// The block reflector of order zero is the identity.
+	if k == 0 {
+		return
 	}
 
 	bi := blas64.Implementation()
